@@ -10,13 +10,13 @@ Local Open Scope N_scope.
 (* str::trim: Unicode White_Space at both ends *)
 Fixpoint trim_start (s : str) : str :=
   match s with c :: r => if is_uni_ws c then trim_start r else s | [] => [] end.
-Definition trim (s : str) : str := List.rev (trim_start (List.rev (trim_start s))).
+Definition trim (s : str) : str := frev (trim_start (frev (trim_start s))).
 (* str::split_whitespace *)
 Fixpoint words_aux (cur : str) (l : str) : list str :=
   match l with
-  | [] => match cur with [] => [] | _ => [List.rev cur] end
+  | [] => match cur with [] => [] | _ => [frev cur] end
   | c :: r => if is_uni_ws c
-              then match cur with [] => words_aux [] r | _ => List.rev cur :: words_aux [] r end
+              then match cur with [] => words_aux [] r | _ => frev cur :: words_aux [] r end
               else words_aux (c :: cur) r
   end.
 Definition words (s : str) : list str := words_aux [] s.
@@ -74,8 +74,8 @@ Definition record_of (block : list str) : option scanrec :=
 Fixpoint read_loop (ls : list str) (buffer : list str) (done : list scanrec) : option (list scanrec) :=
   match ls with
   | [] => match buffer with
-          | [] => Some (List.rev done)
-          | _ => match record_of (List.rev buffer) with Some r => Some (List.rev (r :: done)) | None => None end
+          | [] => Some (frev done)
+          | _ => match record_of (frev buffer) with Some r => Some (frev (r :: done)) | None => None end
           end
   | l0 :: r =>
       let l := trim l0 in
@@ -83,7 +83,7 @@ Fixpoint read_loop (ls : list str) (buffer : list str) (done : list scanrec) : o
       | [] => read_loop r buffer done
       | _ =>
           if starts_with (lit "PKGNAME=") l && (match buffer with [] => false | _ => true end)
-          then match record_of (List.rev buffer) with
+          then match record_of (frev buffer) with
                | Some rec => read_loop r [l] (rec :: done)
                | None => None
                end
